@@ -653,3 +653,322 @@ Example C11f_example_if_exists_inner_error :
   source_of fy_se [97] (* a *) <> None /\
   compile_file fy_se 1000 [109] (* m *) fx_g0 = Err 4 /\ compile_log fy_se [109] (* m *) = None.
 Proof. vm_compute. split; [discriminate|split; reflexivity]. Qed.
+
+
+(* ==================== part: the loader lookup of template_sets.go translated (Props/C11w) ==================== *)
+
+(* Property C11, the loader lookup BY TRANSLATION.
+
+   The laws of Props/C11.v (first loader that has the name wins, the log grows by exactly the
+   attempts made, ...) are about the hand-written lookup of Model/ParseDoc.v: resolve_filename,
+   resolve_template, fetch / compile_file, served, log_misses.  Here the Go functions that the
+   lookup models - template_sets.go: resolveFilename, resolveFilenameForLoader, resolveTemplate,
+   isMissing, FromFile, fromFileRelative - are themselves translated, statement by statement and on
+   every run, into terms of a small Go fragment (gen/LoaderFuncs.v, by tools/go2v), given a
+   meaning (Spec/SpecLoaderFuncs.v: a world of model loaders, the access log and the flag
+   firstTemplateCreated; loader.Abs, loader.Get, io.ReadAll and newTemplate are primitives given by
+   the model), and that meaning is proved equal to the hand-written lookup.  A change of the Go
+   source that changes what a function does stops these proofs; a construct outside the fragment
+   becomes a node "not understood" that blocks them (C11w_unknown_blocks).
+
+   In all statements: [d] is the call depth allowed (4 is enough), [r] the referring template -
+   none, a string template, or a file template, of any name -, [compile] and [fid] the compile
+   primitive and the (Sender, Filename) of the errors it returns, [labs i l] the Abs method of the
+   i-th loader l.  The first group of theorems holds for loaders with ANY Abs methods, each its
+   own (so it says WHICH loader's Abs the code calls); the second group puts the model's loaders
+   there, which all have FSLoader's Abs ([model_abs]), and compares with Model/ParseDoc.v.
+
+   First group (any loaders):
+   - C11w_any_resolveFilename: resolveFilename(tpl, path) is the FIRST loader's resolution: the
+     path itself for a string template, else loaders[0].Abs(tpl.name or "", path); nothing is asked
+     or logged.  C11w_any_resolveTemplate: every loader, in order, resolves the name ITSELF and
+     is asked for that; first hit wins; all attempts logged ([ask_each]).  C11w_any_isMissing,
+     C11w_any_FromFile, C11w_any_fromFileRelative: the same three functions as below, with every
+     loader asked for its own resolution, the file compiled under the name the ANSWERING loader
+     resolved, and the miss error naming the FIRST loader's resolution.
+   Second group (the model's loaders):
+
+   What each theorem contributes:
+   - C11w_resolveFilename: resolveFilename(tpl, path) is resolve_filename; it asks no loader and
+     logs nothing.  C11w_resolveFilename_needs_a_loader: on a set without loaders it panics
+     (set.loaders[0]; NewSet refuses to build such a set).
+   - C11w_resolveTemplate_asks_one_name: for every referrer, loader list, path and state,
+     resolveTemplate asks every loader in order for the ONE name resolve_filename tpl path, stops
+     at the first that has it, returns (that name, that loader, its content, nil) or
+     (path, nil, nil, an error), and logs every attempt: values and world are those of [ask_all].
+     C11w_ask_all_is_resolve_template: the model's resolve_template is ask_all for the ROOT NAME
+     of its path.  C11w_resolveTemplate: hence, without a referring template, resolveTemplate IS
+     resolve_template (se_loaders se) 0 path g - result and log.  C11w_resolveTemplate_partial:
+     with a referring template the same holds for the name it resolves to, WHEN that name is its
+     own root name.
+   - C11w_isMissing: isMissing(err, tpl, name) is "err.Sender is fromfile and err.Filename is the
+     name fromFileRelative(tpl, name) asks the loaders for".
+   - C11w_FromFile_run, C11w_fromFileRelative_run: the two functions are "set the flag, ask the
+     loaders for a name, compile what the first holder has under a name, or return a fromfile
+     error about a name" ([fetch_then_compile]) with these names: FromFile(n): asks root_name n,
+     compiles under n; fromFileRelative(tpl, n): asks, compiles under and reports
+     [asked_name tpl n] - n resolved ONCE against tpl, a string template counting as none.
+     C11w_FromFile: so FromFile is the model's compile_file = fetch, then compile_src (no
+     hypothesis).
+   - FOUND: MODEL AND CODE DIFFER (the translation made it visible; checked on the real code).
+     For include / extends / import / ssi parsed the model computes iname = resolve_filename tpl n
+     and then compile_file iname, which asks the loaders for root_name iname - the name resolved
+     a SECOND time, from the root - and compiles under iname.  The Go code resolves once.
+     (1) C11w_finding_rooted_referrer: a template loaded as FromFile("/r/a.tpl") that refers to
+     "x.tpl": Go asks for "/r/x.tpl", the model for "r/x.tpl"; with both present they read
+     different files, with only the second Go says missing (if_exists renders nothing) and the
+     model includes it.  (2) C11w_finding_string_referrer_name: a string template that refers to
+     "a/..": both ask for ".", Go names the compiled template ".", the model "a/..", so what THAT
+     template refers to is looked up in different directories.
+     C11w_same_lookup_iff says exactly when (1) cannot happen: always, except for a file template
+     whose name is rooted; (2) cannot happen for file templates (C11w_same_name_file) nor for
+     names that are their own root name.
+   - C11w_fromFileRelative_partial: under [same_lookup] and [same_name], fromFileRelative(tpl, n)
+     is the model's compile_file (resolve_filename tpl n).  C11w_fromFileRelative_missing_partial:
+     under same_lookup, when the model's [served] is false the function returns its fromfile error
+     about the asked name and leaves exactly the state [log_misses] (what the model continues
+     with under if_exists): result AND log.
+   - C11w_isMissing_is_not_served_partial: for the error of any failed fromFileRelative(tpl, n),
+     isMissing answers [negb (served ...)] - the model's condition - under same_lookup and under
+     the hypothesis that the compile primitive does not return a fromfile error about this very
+     name (the model's errors carry no names, so it cannot prove this itself; it holds for loaders
+     that answer consistently, since this name was just found).
+   - Examples: C11w_example_lookup (two loaders, a miss then a hit, from a file template in a
+     subdirectory; hypotheses of the partial theorems hold), C11w_example_parser_errors (the
+     hypothesis on fid is satisfiable). *)
+From PV Require Import Model.ParseDoc Model.Api Lib.GoStmt Spec.SpecLoaderFuncs gen.LoaderFuncs.
+From PV Require Import Tie.C11w.
+From Coq Require Import String.
+Open Scope string_scope.
+
+(* ================= first group: loaders with any Abs methods ================= *)
+Theorem C11w_any_resolveFilename : forall labs compile fid d, (4 <= d)%nat -> forall r path l ls g cr,
+  loader_call go_loaderfuncs labs compile fid d "resolveFilename" [ref_val r; LVStr path] (mkLW (l :: ls) g cr) =
+  LOk ([LVStr (resolved_by (labs 0%nat l) r path)], mkLW (l :: ls) g cr).
+Proof. exact tie_resolveFilename_any. Qed.
+Print Assumptions C11w_any_resolveFilename.
+
+Theorem C11w_any_resolveTemplate : forall labs compile fid d, (4 <= d)%nat -> forall r path all g cr,
+  loader_call go_loaderfuncs labs compile fid d "resolveTemplate" [ref_val r; LVStr path] (mkLW all g cr) =
+  LOk (lookup_values (fun i l => resolved_by (labs i l) r path) path
+                     (fst (ask_each (fun i l => resolved_by (labs i l) r path) all 0 g)),
+       mkLW all (snd (ask_each (fun i l => resolved_by (labs i l) r path) all 0 g)) cr).
+Proof. exact tie_resolveTemplate_run_any. Qed.
+Print Assumptions C11w_any_resolveTemplate.
+
+Theorem C11w_any_isMissing : forall labs compile fid d, (4 <= d)%nat -> forall e s fn r fname l ls g cr,
+  err_fields e = Some (s, fn) ->
+  loader_call go_loaderfuncs labs compile fid d "isMissing" [e; ref_val r; LVStr fname] (mkLW (l :: ls) g cr) =
+  LOk ([LVBool (str_eqb s (str_of "fromfile") && str_eqb fn (resolved_by (labs 0%nat l) (ref_file_only r) fname))],
+       mkLW (l :: ls) g cr).
+Proof. exact tie_isMissing_any. Qed.
+Print Assumptions C11w_any_isMissing.
+
+Theorem C11w_any_FromFile : forall labs compile fid d, (4 <= d)%nat -> forall filename all g cr,
+  loader_call go_loaderfuncs labs compile fid d "FromFile" [LVStr filename] (mkLW all g cr) =
+  lookup_then_compile compile fid all (fun i l => resolved_by (labs i l) None filename)
+                      (fun _ _ => filename) filename g.
+Proof. exact tie_FromFile_run_any. Qed.
+Print Assumptions C11w_any_FromFile.
+
+Theorem C11w_any_fromFileRelative : forall labs compile fid d, (4 <= d)%nat -> forall r fname l ls g cr,
+  loader_call go_loaderfuncs labs compile fid d "fromFileRelative" [ref_val r; LVStr fname] (mkLW (l :: ls) g cr) =
+  lookup_then_compile compile fid (l :: ls)
+                      (fun i l' => resolved_by (labs i l') (ref_file_only r) fname)
+                      (fun i l' => resolved_by (labs i l') (ref_file_only r) fname)
+                      (resolved_by (labs 0%nat l) (ref_file_only r) fname) g.
+Proof. exact tie_fromFileRelative_run_any. Qed.
+Print Assumptions C11w_any_fromFileRelative.
+
+(* ask_each with one name for all is ask_all *)
+Theorem C11w_ask_each_one_name : forall name ls idx g,
+  ask_each (fun _ _ => name) ls idx g = ask_all ls idx name g.
+Proof. exact ask_each_const. Qed.
+Print Assumptions C11w_ask_each_one_name.
+
+(* ================= second group: the loaders of the model ================= *)
+Theorem C11w_resolveFilename : forall compile fid d, (4 <= d)%nat -> forall r path l ls g cr,
+  loader_call go_loaderfuncs model_abs compile fid d "resolveFilename" [ref_val r; LVStr path] (mkLW (l :: ls) g cr) =
+  LOk ([LVStr (resolve_filename (ref_isstr r) (ref_name r) path)], mkLW (l :: ls) g cr).
+Proof. exact tie_resolveFilename. Qed.
+Print Assumptions C11w_resolveFilename.
+
+Theorem C11w_resolveFilename_needs_a_loader : forall compile fid d, (4 <= d)%nat -> forall r path g cr,
+  loader_call go_loaderfuncs model_abs compile fid d "resolveFilename" [ref_val r; LVStr path] (mkLW [] g cr) =
+  LPanic "index out of range".
+Proof. exact tie_resolveFilename_no_loader. Qed.
+Print Assumptions C11w_resolveFilename_needs_a_loader.
+
+Theorem C11w_resolveTemplate_asks_one_name : forall compile fid d, (4 <= d)%nat -> forall r path all g cr,
+  loader_call go_loaderfuncs model_abs compile fid d "resolveTemplate" [ref_val r; LVStr path] (mkLW all g cr) =
+  LOk (lookup_values (fun _ _ => model_name r path) path (fst (ask_all all 0 (model_name r path) g)),
+       mkLW all (snd (ask_all all 0 (model_name r path) g)) cr).
+Proof. exact tie_resolveTemplate_run. Qed.
+Print Assumptions C11w_resolveTemplate_asks_one_name.
+
+Theorem C11w_ask_all_is_resolve_template : forall ls idx path g,
+  resolve_template ls idx path g =
+  (content_of (fst (ask_all ls idx (root_name path) g)), snd (ask_all ls idx (root_name path) g)).
+Proof. exact resolve_template_ask_all. Qed.
+Print Assumptions C11w_ask_all_is_resolve_template.
+
+Theorem C11w_resolveTemplate : forall compile fid d, (4 <= d)%nat -> forall path all g cr,
+  read_lookup (loader_call go_loaderfuncs model_abs compile fid d "resolveTemplate" [LVNil; LVStr path] (mkLW all g cr)) =
+  Some (resolve_template all 0 path g).
+Proof. exact tie_resolveTemplate. Qed.
+Print Assumptions C11w_resolveTemplate.
+
+Theorem C11w_resolveTemplate_partial : forall compile fid d, (4 <= d)%nat -> forall r path all g cr,
+  root_name (model_name r path) = model_name r path ->
+  read_lookup (loader_call go_loaderfuncs model_abs compile fid d "resolveTemplate" [ref_val r; LVStr path] (mkLW all g cr)) =
+  Some (resolve_template all 0 (model_name r path) g).
+Proof. exact tie_resolveTemplate_partial. Qed.
+Print Assumptions C11w_resolveTemplate_partial.
+
+Theorem C11w_isMissing : forall compile fid d, (4 <= d)%nat -> forall e s fn r fname l ls g cr,
+  err_fields e = Some (s, fn) ->
+  loader_call go_loaderfuncs model_abs compile fid d "isMissing" [e; ref_val r; LVStr fname] (mkLW (l :: ls) g cr) =
+  LOk ([LVBool (str_eqb s (str_of "fromfile") && str_eqb fn (asked_name r fname))], mkLW (l :: ls) g cr).
+Proof. exact tie_isMissing. Qed.
+Print Assumptions C11w_isMissing.
+
+Theorem C11w_FromFile_run : forall compile fid d, (4 <= d)%nat -> forall filename all g cr,
+  loader_call go_loaderfuncs model_abs compile fid d "FromFile" [LVStr filename] (mkLW all g cr) =
+  fetch_then_compile compile fid all (root_name filename) filename filename g.
+Proof. exact tie_FromFile_run. Qed.
+Print Assumptions C11w_FromFile_run.
+
+Theorem C11w_fromFileRelative_run : forall compile fid d, (4 <= d)%nat -> forall r fname l ls g cr,
+  loader_call go_loaderfuncs model_abs compile fid d "fromFileRelative" [ref_val r; LVStr fname] (mkLW (l :: ls) g cr) =
+  fetch_then_compile compile fid (l :: ls) (asked_name r fname) (asked_name r fname) (asked_name r fname) g.
+Proof. exact tie_fromFileRelative_run. Qed.
+Print Assumptions C11w_fromFileRelative_run.
+
+Theorem C11w_FromFile : forall se f fid d, (4 <= d)%nat -> forall filename g cr,
+  read_compiled (loader_call go_loaderfuncs model_abs (compile_src se f) fid d "FromFile" [LVStr filename]
+                             (mkLW (se_loaders se) g cr)) =
+  Some (compile_file se (S f) filename g).
+Proof. exact tie_FromFile. Qed.
+Print Assumptions C11w_FromFile.
+
+Theorem C11w_fromFileRelative_partial : forall se f fid d, (4 <= d)%nat -> forall r fname l ls g cr,
+  se_loaders se = l :: ls ->
+  same_lookup r fname -> same_name r fname ->
+  read_compiled (loader_call go_loaderfuncs model_abs (compile_src se f) fid d "fromFileRelative" [ref_val r; LVStr fname]
+                             (mkLW (se_loaders se) g cr)) =
+  Some (compile_file se (S f) (model_name r fname) g).
+Proof. exact tie_fromFileRelative_partial. Qed.
+Print Assumptions C11w_fromFileRelative_partial.
+
+Theorem C11w_fromFileRelative_missing_partial : forall se f fid d, (4 <= d)%nat -> forall r fname l ls g cr,
+  se_loaders se = l :: ls ->
+  same_lookup r fname ->
+  served (se_loaders se) (model_name r fname) = false ->
+  read_error_value (loader_call go_loaderfuncs model_abs (compile_src se f) fid d "fromFileRelative" [ref_val r; LVStr fname]
+                                (mkLW (se_loaders se) g cr)) =
+  Some (LVError (str_of "fromfile") (asked_name r fname), log_misses (se_loaders se) (model_name r fname) g).
+Proof. exact tie_fromFileRelative_missing_partial. Qed.
+Print Assumptions C11w_fromFileRelative_missing_partial.
+
+Theorem C11w_isMissing_is_not_served_partial :
+  forall compile fid d, (4 <= d)%nat -> forall r fname l ls g cr e g',
+  same_lookup r fname ->
+  (forall c g0, fid (asked_name r fname) c g0 <> (str_of "fromfile", asked_name r fname)) ->
+  read_error_value (loader_call go_loaderfuncs model_abs compile fid d "fromFileRelative" [ref_val r; LVStr fname]
+                                (mkLW (l :: ls) g cr)) = Some (e, g') ->
+  forall g2 cr2,
+  read_bool (loader_call go_loaderfuncs model_abs compile fid d "isMissing" [e; ref_val r; LVStr fname] (mkLW (l :: ls) g2 cr2))
+    = Some (negb (served (l :: ls) (model_name r fname))).
+Proof. exact tie_isMissing_is_not_served_partial. Qed.
+Print Assumptions C11w_isMissing_is_not_served_partial.
+
+Theorem C11w_same_lookup_iff : forall r fname,
+  same_lookup r fname <-> match r with Some (false, n) => path_is_abs n = false | _ => True end.
+Proof. exact same_lookup_iff. Qed.
+Print Assumptions C11w_same_lookup_iff.
+
+Theorem C11w_same_name_file : forall n fname, same_name (Some (false, n)) fname.
+Proof. exact same_name_file. Qed.
+Print Assumptions C11w_same_name_file.
+
+Theorem C11w_finding_rooted_referrer :
+  let x := str_of "x.tpl" in
+  let both := [c11w_loader [("/r/x.tpl", "GO"); ("r/x.tpl", "MODEL")]] in
+  let one := [c11w_loader [("r/x.tpl", "MODEL")]] in
+  same_lookupb c11w_rooted x = false /\
+  asked_name c11w_rooted x = str_of "/r/x.tpl" /\
+  root_name (model_name c11w_rooted x) = str_of "r/x.tpl" /\
+  read_lookup (loader_call go_loaderfuncs model_abs c11w_no_compile parser_ident 4 "resolveTemplate"
+                           [ref_val c11w_rooted; LVStr x] (mkLW both c11w_g0 false))
+    = Some (Some (str_of "GO"), mkG 1 [LGet 0 (str_of "/r/x.tpl") true]) /\
+  resolve_template both 0 (model_name c11w_rooted x) c11w_g0
+    = (Some (str_of "MODEL"), mkG 1 [LGet 0 (str_of "r/x.tpl") true]) /\
+  read_error_value (loader_call go_loaderfuncs model_abs c11w_no_compile parser_ident 4 "fromFileRelative"
+                                [ref_val c11w_rooted; LVStr x] (mkLW one c11w_g0 false))
+    = Some (LVError (str_of "fromfile") (str_of "/r/x.tpl"), mkG 1 [LGet 0 (str_of "/r/x.tpl") false]) /\
+  read_bool (loader_call go_loaderfuncs model_abs c11w_no_compile parser_ident 4 "isMissing"
+                         [LVError (str_of "fromfile") (str_of "/r/x.tpl"); ref_val c11w_rooted; LVStr x]
+                         (mkLW one c11w_g0 true)) = Some true /\
+  served one (model_name c11w_rooted x) = true.
+Proof. exact tie_finding_rooted_referrer. Qed.
+Print Assumptions C11w_finding_rooted_referrer.
+
+Theorem C11w_finding_string_referrer_name :
+  let x := str_of "a/.." in
+  same_nameb c11w_string x = false /\
+  asked_name c11w_string x = str_of "." /\
+  model_name c11w_string x = str_of "a/.." /\
+  root_name (model_name c11w_string x) = asked_name c11w_string x /\
+  fsloader_abs (asked_name c11w_string x) (str_of "c") = str_of "c" /\
+  fsloader_abs (model_name c11w_string x) (str_of "c") = str_of "a/c".
+Proof. exact tie_finding_string_referrer_name. Qed.
+Print Assumptions C11w_finding_string_referrer_name.
+
+(* the same findings on the whole model; the real code prints "GO", "[]", an error about
+   /r/nothere, and "DOTC-top" for these four (see Tie/C11w.v).  The world: one loader with these
+   files, no options, nothing banned, no globals. *)
+Notation c11w_world fs := (mkWorld [c11w_loader fs] false false [] [] [] [] []) (only parsing).
+Theorem C11w_finding_model_end_to_end :
+  api_render_file (c11w_world [("r/a.tpl", "{% include ""x.tpl"" %}"); ("/r/x.tpl", "GO"); ("r/x.tpl", "MODEL")])
+                  (str_of "/r/a.tpl") [] = OOk (str_of "MODEL") /\
+  api_render_file (c11w_world [("r/a.tpl", "[{% include ""x.tpl"" if_exists %}]"); ("r/x.tpl", "MODEL")])
+                  (str_of "/r/a.tpl") [] = OOk (str_of "[MODEL]") /\
+  api_render_file (c11w_world [("r/a.tpl", "[{% include ""x.tpl"" if_exists %}]"); ("/r/x.tpl", "{% include ""nothere"" %}")])
+                  (str_of "/r/a.tpl") [] = OOk (str_of "[]") /\
+  api_render_string (c11w_world [(".", "DOT{% include ""c"" %}"); ("a/c", "C-in-a"); ("c", "C-top")])
+                    (str_of "{% include ""a/.."" %}") [] = OOk (str_of "DOTC-in-a").
+Proof. exact tie_finding_model_end_to_end. Qed.
+Print Assumptions C11w_finding_model_end_to_end.
+
+Theorem C11w_unknown_blocks : forall labs compile fid d r path w,
+  read_lookup (loader_call [c11w_unknown_demo] labs compile fid (S d) "resolveTemplate" [ref_val r; LVStr path] w) = None.
+Proof. exact tie_loaderfuncs_unknown_blocks. Qed.
+Print Assumptions C11w_unknown_blocks.
+
+(* two loaders, the second has d/c; from the file template d/e the name "c" is d/c: a miss on
+   loader 0, a hit on loader 1, Go and model agree on result and log; "zz" is missing: the error
+   names d/zz and the state is log_misses.  The hypotheses of the partial theorems hold here. *)
+Example C11w_example_lookup :
+  let ls := [c11w_loader [("a", "A")]; c11w_loader [("b", "B"); ("d/c", "C")]] in
+  let r : referrer := Some (false, str_of "d/e") in
+  let c := str_of "c" in
+  same_lookup r c /\ same_name r c /\
+  model_name r c = str_of "d/c" /\
+  loader_call go_loaderfuncs model_abs c11w_no_compile parser_ident 4 "resolveTemplate" [ref_val r; LVStr c] (mkLW ls c11w_g0 false)
+    = LOk ([LVStr (str_of "d/c"); LVLoader 1 (c11w_loader [("b", "B"); ("d/c", "C")]); LVReader (str_of "C"); LVNil],
+           mkLW ls (mkG 1 [LGet 1 (str_of "d/c") true; LGet 0 (str_of "d/c") false]) false) /\
+  resolve_template ls 0 (model_name r c) c11w_g0
+    = (Some (str_of "C"), mkG 1 [LGet 1 (str_of "d/c") true; LGet 0 (str_of "d/c") false]) /\
+  served ls (model_name r (str_of "zz")) = false /\
+  read_error_value (loader_call go_loaderfuncs model_abs c11w_no_compile parser_ident 4 "fromFileRelative"
+                                [ref_val r; LVStr (str_of "zz")] (mkLW ls c11w_g0 false))
+    = Some (LVError (str_of "fromfile") (str_of "d/zz"), log_misses ls (str_of "d/zz") c11w_g0).
+Proof. exact tie_c11w_witness. Qed.
+Print Assumptions C11w_example_lookup.
+
+(* the hypothesis of C11w_isMissing_is_not_served_partial on the errors of the compile primitive
+   is satisfiable: errors whose Sender is the parser's *)
+Example C11w_example_parser_errors : forall name c g0,
+  parser_ident name c g0 <> (str_of "fromfile", name).
+Proof. exact tie_parser_ident_ok. Qed.
+Print Assumptions C11w_example_parser_errors.
